@@ -88,6 +88,16 @@ theorem no_reset_best_passing_wins (cfg : SearchCfg μ θ) (M : Nat → μ)
     (search cfg M (fun _ => false) T.length T th).winner = nanargmax (qualifying cfg M th T) :=
   search_no_veto cfg M T.length T th (liveCount_le_length T)
 
+/-- MT~: vetoed categories are never candidates and the threshold never moves —
+the winner is the first index of maximal activation among the candidates that
+are *not vetoed* and pass the configured vigilance; a new category iff none. -/
+theorem tilde_best_allowed_passing_wins (cfg : SearchCfg μ θ) (htilde : cfg.tilde = true) (M : Nat → μ)
+    (veto : Nat → Bool) (T : List (Option α)) (th : θ) :
+    (search cfg M veto (strikeVetoed true veto T).length (strikeVetoed true veto T) th).winner =
+      nanargmax (qualifying cfg M th (strikeVetoed true veto T)) := by
+  rw [search_tilde_ignores_veto cfg M veto htilde]
+  exact search_no_veto cfg M _ _ th (liveCount_le_length _)
+
 /-- In every mode (MT~ included) the category a training step resonates with was
 not vetoed by the reset function and indexes an existing category. -/
 theorem step_winner_allowed (K : Kernel X Wt α μ) (cfg : SearchCfg μ θ) (th0 : θ)
